@@ -32,6 +32,10 @@ pub enum Backend {
     WasmP2,
     /// P3: WASM with skeleton and patch plan (`Context::emit_wasm` + prepare with `Some(skel)`)
     WasmP3,
+    /// P4: WASM payload built the way an embedder of `DspRuntime` builds it from the public API:
+    /// `state_tree::build_state_storage_patch_plan(old, new)` and, when that returns `None`
+    /// (identical skeletons), an empty plan (no whole-buffer identity patch like the CLI adds)
+    WasmP4,
 }
 impl Backend {
     pub fn name(&self) -> &'static str {
@@ -39,6 +43,7 @@ impl Backend {
             Backend::Vm => "vm",
             Backend::WasmP2 => "wasm_p2",
             Backend::WasmP3 => "wasm_p3",
+            Backend::WasmP4 => "wasm_p4",
         }
     }
     pub fn is_wasm(&self) -> bool {
@@ -73,6 +78,8 @@ struct OldWasmProgram {
 /// Mirror of the private WASM glue of `mimium-cli` `FileRunner` (stub; see module doc).
 struct WasmGlue {
     old_program: Option<OldWasmProgram>,
+    /// P4: do not add the CLI's identity patch for identical skeletons
+    embedder_style: bool,
 }
 
 impl WasmGlue {
@@ -141,11 +148,27 @@ impl WasmGlue {
         let plugin_fns = old_program.as_ref().and_then(|p| p.plugin_fns.clone());
         let (prewarmed_global_state, prepared_engine) =
             Self::try_prewarm(&bytes, &ext_fns, plugin_fns.clone())?;
-        let state_patch_plan = Self::build_required_state_patch_plan(
-            previous_skeleton,
-            dsp_state_skeleton.as_ref(),
-            prewarmed_global_state.len(),
-        );
+        let state_patch_plan = if self.embedder_style {
+            match (previous_skeleton.clone(), dsp_state_skeleton.clone()) {
+                (Some(old), Some(new)) => {
+                    let total_size = new.total_size() as usize;
+                    state_tree::build_state_storage_patch_plan(old, new).unwrap_or(StateStoragePatchPlan {
+                        total_size,
+                        patches: vec![],
+                    })
+                }
+                _ => StateStoragePatchPlan {
+                    total_size: prewarmed_global_state.len(),
+                    patches: vec![],
+                },
+            }
+        } else {
+            Self::build_required_state_patch_plan(
+                previous_skeleton,
+                dsp_state_skeleton.as_ref(),
+                prewarmed_global_state.len(),
+            )
+        };
         let payload = ProgramPayload::WasmModule {
             bytes,
             prepared_engine,
@@ -242,7 +265,7 @@ impl Sut {
                     _ctx: ctx,
                 })
             }
-            Backend::WasmP2 | Backend::WasmP3 => {
+            Backend::WasmP2 | Backend::WasmP3 | Backend::WasmP4 => {
                 use mimium_lang::compiler::wasmgen::WasmGenerator;
                 let mut ctx = make_ctx(path, opts, None);
                 ctx.prepare_compiler();
@@ -295,6 +318,7 @@ impl Sut {
                     tx,
                     rx,
                     glue: Some(WasmGlue {
+                        embedder_style: backend == Backend::WasmP4,
                         old_program: Some(OldWasmProgram {
                             dsp_state_skeleton: dsp_skeleton,
                             ext_fns,
@@ -340,7 +364,7 @@ impl Sut {
                     Err(e) => Compiled::Failed(errs_to_string(e)),
                 }
             }
-            Backend::WasmP3 => match self.compiler.emit_wasm(src) {
+            Backend::WasmP3 | Backend::WasmP4 => match self.compiler.emit_wasm(src) {
                 Ok(out) => {
                     match self.glue.as_mut().unwrap().prepare_hot_swap_wasm_payload(
                         out.bytes,
